@@ -167,6 +167,20 @@ func drawXZCase(t *rapid.T) caseXZ {
 		c.Data = gen.Recipe{{Kind: "text", K: 26, Len: nb*int(c.Cfg.BlockSize) - rapid.IntRange(0, int(c.Cfg.BlockSize)-1).Draw(t, "mbrem"), Seed: rapid.Uint64().Draw(t, "mbseed")}}
 		forceSingle = rapid.Bool().Draw(t, "mbsingle")
 	}
+	if rapid.IntRange(0, 14).Draw(t, "blockstartsraw") == 0 {
+		// every block starts with more than 64 KiB of incompressible data (its
+		// first chunk has to be stored) and goes on with compressible data:
+		// whatever a block inherits from its predecessor shows here
+		bs := rapid.SampledFrom([]int{100000, 131072, 200000}).Draw(t, "bsrsize")
+		c.Cfg.BlockSize = int64(bs)
+		c.Data = nil
+		for b, nb := 0, rapid.IntRange(2, 4).Draw(t, "bsrblocks"); b < nb; b++ {
+			rl := rapid.IntRange(66000, 90000).Draw(t, "bsrraw")
+			c.Data = append(c.Data, gen.Seg{Kind: "random", Len: rl, Seed: rapid.Uint64().Draw(t, "bsrseed")},
+				gen.Seg{Kind: "text", K: 4, Len: bs - rl, Seed: rapid.Uint64().Draw(t, "bsrtseed")})
+		}
+		forceSingle = rapid.Bool().Draw(t, "bsrsingle")
+	}
 	if c.Cfg.Matcher == 1 {
 		c.Data = clampForBT(c.Data, 12000)
 	}
